@@ -66,7 +66,22 @@ RAW = [
 ]
 raw_line = st.fixed_dictionaries({"k": st.just("raw"), "text": st.sampled_from(RAW)})
 
-lines_st = st.lists(st.one_of(mod_line, mod_line, mod_line, raw_line), max_size=40)
+# lines that satisfy every requirement (so that most files offer several sizes to choose from)
+good_line = st.fixed_dictionaries(
+    {
+        "k": st.just("mod"),
+        "type": st.sampled_from([2, 2, 3, 5]),
+        "tests": st.sampled_from([6, 6, 4, 8, 12, 15]),
+        "tries": st.sampled_from([100, 200]),
+        "rep": st.sampled_from([-1, -1, -1, 0]),
+        "gen": st.sampled_from([2, 2, 5, 0]),
+        "bl": st.sampled_from(BITLENS),
+        "tag": st.integers(0, (1 << 32) - 1),
+        "sep": st.just(" "),
+    }
+)
+_line = st.one_of(good_line, good_line, good_line, mod_line, mod_line, raw_line)
+lines_st = st.one_of(st.lists(_line, max_size=40), st.lists(_line, min_size=3, max_size=14))
 
 _near = st.builds(lambda b, d: max(0, b + d), st.sampled_from(BITLENS), st.sampled_from([-1, 0, 1, -2, 2]))
 bound = st.one_of(_near, _near, st.integers(0, 20000), st.sampled_from([0, 1, 1024, 2048, 4096, 8192, 20000]))
@@ -208,7 +223,7 @@ def execute(ctx, case):
 
 def run(ctx):
     ctx.set_budget(60, 700)
-    ctx.explore(case_st, lambda c: execute(ctx, c), ctx.scale(3000, 40000))
+    ctx.explore(case_st, lambda c: execute(ctx, c), ctx.scale(3500, 40000))
 
 
 def replay(ctx, case):
